@@ -60,8 +60,46 @@ def showRes : Res → String
   | .unmodelled => "opaque"
   | .outOfFuel => "hang"
 
+/-! histories: `H <k> <tag-hex>×k <j> (P<path-hex> <value>)×j <cfg>` → `<first>×k / <second>×k` (`Ioc.Placeholder.resolveTwice`) -/
+
+def takeTags : Nat → List String → Option (List Bytes × List String)
+  | 0, toks => some ([], toks)
+  | _ + 1, [] => none
+  | k + 1, t :: rest =>
+    match fromHex t, takeTags k rest with
+    | some b, some (bs, r) => some (b :: bs, r)
+    | _, _ => none
+
+def takeOps : Nat → List String → Option (List (Bytes × CVal) × List String)
+  | 0, toks => some ([], toks)
+  | _ + 1, [] => none
+  | j + 1, pt :: rest =>
+    match pt.toList, hexArg pt with
+    | 'P' :: _, some path =>
+      match parseVal (2 * rest.length + 2) rest with
+      | some (v, r) => (takeOps j r).map fun (ops, r') => ((path, v) :: ops, r')
+      | none => none
+    | _, _ => none
+
+def handleH (toks : List String) : String :=
+  match toks with
+  | kt :: rest =>
+    match kt.toNat?.bind (fun k => takeTags k rest) with
+    | some (tags, jt :: rest2) =>
+      match jt.toNat?.bind (fun j => takeOps j rest2) with
+      | some (ops, rest3) =>
+        match parseVal (2 * rest3.length + 2) rest3 with
+        | some (.map cfg, []) =>
+          let r := resolveTwice cfg ops tags
+          joinWith " " (r.1.map showRes ++ ["/"] ++ r.2.map showRes)
+        | _ => "bad-line"
+      | none => "bad-line"
+    | _ => "bad-line"
+  | [] => "bad-line"
+
 def handle (line : String) : String :=
   match line.splitOn " " with
+  | "H" :: toks => handleH toks
   | th :: toks =>
     match fromHex th, parseVal (2 * toks.length + 2) toks with
     | some s, some (.map cfg, []) => showRes (process cfg s)
